@@ -35,6 +35,31 @@ theorem shape_dim_recheck (d : Dim) :
   simp only [BExp.eval, dimEnv]
   cases d.ticks <;> cases d.link <;> cases d.alias <;> rfl
 
+theorem shape_is_alias (d : Dim) :
+    firstMatch (readEnv d) Gen.isAliasRules Gen.isAliasDefault = some (isAliasRead d) := by
+  obtain ⟨name, ty, ticks, unit, label, alias, link⟩ := d
+  unfold Gen.isAliasRules Gen.isAliasDefault isAliasRead
+  cases ticks <;> cases link <;> cases alias <;>
+    simp [firstMatch, BExp.eval, readEnv] <;>
+    (rename_i l; cases l.dataObjectType == "DataArray" <;> rfl)
+
+theorem shape_sources (d : Dim) :
+    firstMatch (getterEnv (isAliasRead d) d) Gen.ticksSource.1 Gen.ticksSource.2 = some (sourceOf d) ∧
+    firstMatch (getterEnv (isAliasRead d) d) Gen.unitSource.1 Gen.unitSource.2 = some (sourceOf d) ∧
+    firstMatch (getterEnv (isAliasRead d) d) Gen.labelSource.1 Gen.labelSource.2 = some (sourceOf d) := by
+  unfold Gen.ticksSource Gen.unitSource Gen.labelSource sourceOf
+  cases isAliasRead d <;> cases hl : d.link <;>
+    simp [firstMatch, BExp.eval, getterEnv, hl]
+
+/-- `readDim` reads the array through the alias link or the link group, and the dimension group otherwise -/
+theorem readDim_source (a : Arr) (d : Dim) :
+    readDim a d = match sourceOf d with
+      | .redirect => ⟨a.data, a.unit, a.label⟩
+      | .link => ⟨a.data, a.unit, a.label⟩
+      | .own => ⟨d.ticks.getD "[]", d.unit, d.label⟩ := by
+  unfold readDim sourceOf
+  cases isAliasRead d <;> cases hl : d.link <;> simp
+
 theorem applyRule_str (run : Nat) (p : Path) (o : OldProp) (m : NewProp) (es : List (Path × PObj)) (b : Bool)
     (field suf : String) (sel : OldRow → String) (hc : column o field = some (.str (o.rows.map sel))) :
     applyRule run p o ⟨m, es, b⟩ ⟨field, .anyTruthy, .prop suf "str", false⟩ =
